@@ -39,6 +39,7 @@ PROP = {
     "harness_args": harness_args,
     "harness_timeout": 3000,
     "trusted": [
+        "quick tier: 8 MiB goroutine stack limit in the child for the 50000-level nesting input; thorough tier additionally the Go default (1 GB) with 6,000,000 levels, the 2^31-1 hint for every item type, and items of MaxByteSize / MaxByteSize+1 bytes",
         "every call into package sml of the diff/hostile passes runs in a child process of the harness started by /bin/sh under `ulimit -v` (4 GiB) with a wall-clock limit; the child's crash / kill is read from its exit status and stderr (fatal error text class only)",
         "runtime.MemStats.TotalAlloc deltas for the allocation oracle; debug.SetMaxStack in the child for the quick-tier nesting case (8 MiB instead of Go's 1 GB default, stated in the evidence notes)",
         "go/parser scan of /repo/sml for package-level variables; the Go race detector (-race build of the same harness)",
@@ -47,7 +48,9 @@ PROP = {
         "strconv.ParseFloat is outside go-secs: the model takes it as a parameter (any total function); the driver instantiates it per input with the results the real ParseFloat returns for every candidate token (float table in the case line)",
         "strconv.ParseInt/ParseUint (Base/Decimal.v) and utf8 decoding / unicode.IsSpace / strings.ToUpper on the value tokens (Base/Utf8.v, Parser.v) are modelled, tied by the correspondence runs only",
         "rune loops that only look for ASCII bytes (quotes, '>', digits) are modelled as byte loops (every byte of a multi-byte or invalid sequence is >= 0x80); the generator contains multi-byte runes, invalid UTF-8 and Unicode spaces",
+        "fuel: the theorems are stated for fuel_for_input s = 2 len + 2 (one unit per parseItem call and per parseList iteration; the corner where parseItemSize steps back one byte costs the factor 2); the driver runs the model with exactly that fuel",
         "cost model: m_steps counts the bytes each scanning primitive of the MODEL looks at (plus the bytes copied by numStr += string(ch) in strict ASCII); it is not measured on the Go side. The allocation meter counts the capacities passed to make / strings.Builder.Grow only (append growth and value strings are linear in the consumed input)",
+        "hypothesis cap_ok on every whole-run theorem: a configured depth cap is >= 0 (true for cfg_current = no cap and cfg_repaired = 64; non-vacuity example in Properties/C14.v)",
         "the positive totality / resource theorems are about the model with the corresponding repair switch on (cfg: c_quote_fix, c_cap_hint, c_depth_cap); the current code is the assignment (false,false,None) and refutes them by the recorded witnesses. The driver accepts a run only if ONE assignment of the three switches explains every observed outcome",
         "instances_independent: in the model a parse is a function of (cfg, strict, input); the code side is the source scan (no package-level variable of package sml other than never-written error values / literal tables), the reused-vs-fresh parser comparison in the child, and the -race concurrency pass",
     ],
